@@ -286,7 +286,7 @@ fn gen_input(rng: &mut Rng, recorded: &[Vec<u8>], maxlen: usize) -> Vec<u8> {
 }
 
 fn gen_frequencies(rng: &mut Rng) -> (Vec<u32>, &'static str) {
-    let kind = rng.below(5);
+    let kind = rng.below(6);
     let mut f = vec![0u32; 256];
     let name = match kind {
         0 => {
@@ -314,6 +314,19 @@ fn gen_frequencies(rng: &mut Rng) -> (Vec<u32>, &'static str) {
             }
             "ties"
         }
+        5 => {
+            // deep: a doubling chain of k rare symbols below 256-k equally frequent ones,
+            // so that the rarest codes (and EOF, frequency 1) are 8+k <= 24 bits long
+            let k = rng.range(8, 15) as usize;
+            let start = rng.usize_below(256 - k);
+            for x in f.iter_mut() {
+                *x = 1 << k;
+            }
+            for i in 0..k {
+                f[start + i] = (1u32 << i) * if rng.chance(1, 8) { 3 } else { 1 };
+            }
+            "deep"
+        }
         _ => {
             // mildly geometric: depth stays well below 24
             for (i, x) in f.iter_mut().enumerate() {
@@ -327,7 +340,7 @@ fn gen_frequencies(rng: &mut Rng) -> (Vec<u32>, &'static str) {
 
 fn main() {
     let mut ctx = Ctx::from_args("C07");
-    ctx.rule = "compressor inputs: all byte strings of length <= 2 (exhaustive, built-in table), structured (zeros, repeated byte, ramps, runs, recorded game traffic) and PRNG strings up to 8 KiB; each compressed in both forms into canary-guarded buffers of every capacity (short) or boundary capacities; decompressor inputs: valid streams, every/PRNG truncation, extension with trailing bytes, PRNG garbage, recorded streams - each against every output capacity 0..needed+2 (short) or boundary capacities; tables: the built-in one and generated ones (uniform, skewed, constant, ties, geometric); distinct = hash of table and input bytes, non-trivial = input non-empty".into();
+    ctx.rule = "compressor inputs: all byte strings of length <= 2 (exhaustive, built-in table), structured (zeros, repeated byte, ramps, runs, recorded game traffic) and PRNG strings up to 8 KiB; each compressed in both forms into canary-guarded buffers of every capacity (short) or boundary capacities; decompressor inputs: valid streams, every/PRNG truncation, extension with trailing bytes, PRNG garbage, recorded streams - each against every output capacity 0..needed+2 (short) or boundary capacities; tables: the built-in one and generated ones (uniform, skewed, constant, ties, geometric, deep = codes of up to 24 bits), for which streams are also fed with their last 1-4 bytes cut off; distinct = hash of table and input bytes, non-trivial = input non-empty".into();
     ctx.assumptions = vec![
         "generated frequency tables keep sums below 2^31 and depth <= 24 (the constructor panics above that; such vectors are counted and skipped, not claimed)".into(),
         "reference comparison of the decoder is one-directional: only when the C++ reference returns >= 0".into(),
@@ -458,6 +471,16 @@ fn main() {
                 c2.truncate(cut);
             }
             check_decompress(ctx, &t, &c2, "table-stream", rng);
+            // streams whose trailing bytes are missing: the decoder supplies zero bits (a
+            // long EOF code may span several of them); and the empty stream
+            for cut in 1..=4usize {
+                if c.len() >= cut && rng.chance(1, 2) {
+                    check_decompress(ctx, &t, &c[..c.len() - cut], "table-stream-tail-cut", rng);
+                }
+            }
+            if rng.chance(1, 10) {
+                check_decompress(ctx, &t, &[], "table-stream-tail-cut", rng);
+            }
             let l = rng.range(0, 40) as usize;
             let g = rng.bytes(l);
             check_decompress(ctx, &t, &g, "table-garbage", rng);
